@@ -39,6 +39,16 @@ fn collect_names(xot: &Xot, node: xot::Node, exp: &ANode, out: &mut Vec<(QName, 
             }
             kids.iter().zip(e.children.iter()).all(|(k, c)| collect_names(xot, *k, c, out))
         }
+        ANode::PI(target, _) => {
+            match xot.processing_instruction(node) {
+                Some(pi) => {
+                    // a PI target is a name in no namespace
+                    out.push((QName::new("", target), pi.target()));
+                    true
+                }
+                None => false,
+            }
+        }
         _ => true,
     }
 }
@@ -56,6 +66,10 @@ struct Model {
     pf: HashMap<String, PrefixId>,
     nm: HashMap<(String, String), NameId>,
     bulk_counter: usize,
+    /// strings a rejected parse has seen: they may or may not be registered, but a lookup that
+    /// finds one must resolve back to the same string
+    ghost_names: Vec<(String, String)>,
+    ghost_prefixes: Vec<String>,
 }
 
 impl Model {
@@ -139,6 +153,29 @@ impl Model {
                     }
                 }
                 None => {}
+            }
+        }
+        for (l, n) in &self.ghost_names {
+            if let Some(nsid) = xot.namespace(n) {
+                if xot.namespace_str(nsid) != n {
+                    return Err(format!("{}: namespace({:?}) (seen by a rejected parse) finds an id that resolves to {:?}", what, n, xot.namespace_str(nsid)));
+                }
+                if let Some(id) = xot.name_ns(l, nsid) {
+                    let (gl, gn) = xot.name_ns_str(id);
+                    if gl != l || gn != n {
+                        return Err(format!("{}: name_ns({:?},{:?}) (seen by a rejected parse) finds an id that resolves to ({:?},{:?})", what, l, n, gl, gn));
+                    }
+                    if let Some(reg) = self.nm.iter().find(|(k, v)| **v == id && (k.0 != *l || k.1 != *n)) {
+                        return Err(format!("{}: ({:?},{:?}) (seen by a rejected parse) shares its id with the registered name {:?}", what, l, n, reg.0));
+                    }
+                }
+            }
+        }
+        for s in &self.ghost_prefixes {
+            if let Some(id) = xot.prefix(s) {
+                if xot.prefix_str(id) != s {
+                    return Err(format!("{}: prefix({:?}) (seen by a rejected parse) finds an id that resolves to {:?}", what, s, xot.prefix_str(id)));
+                }
             }
         }
         Ok(())
@@ -296,7 +333,7 @@ impl Property for C08 {
         "C08"
     }
     fn rule(&self) -> &'static str {
-        "case = generated history of add_name/add_name_ns/add_namespace/add_prefix/parse/html5()/clone() steps plus bulk registrations of K fresh strings (K in {10,300,70000}); after every step the touched id and after every bulk/clone step ALL ids issued so far are compared with reference maps string<->id. Non-trivial = at least two kinds registered and at least one repeated registration; distinct by hash of the decoded step list. Label crossed65536 counts cases whose registrations of one kind exceed 2^16."
+        "case = generated history of add_name/add_name_ns/add_namespace/add_prefix/parse/html5()/clone() steps plus bulk registrations of K fresh strings (K in {10,300,70000}); plan hist-parse centres on parsing: generated documents with shadowed / aliased prefixes, comments and PIs (every element, attribute and PI-target name must get the id of the expanded name the text denotes) and REJECTED documents that introduce new strings before the error (afterwards every earlier id is unchanged, any lookup that finds one of those strings resolves back to it, and strings registered next do not share an id with them); after every step the touched id and after every bulk/clone step ALL ids issued so far are compared with reference maps string<->id. Non-trivial = at least two kinds registered and at least one repeated registration; distinct by hash of the decoded step list. Label crossed65536 counts cases whose registrations of one kind exceed 2^16."
     }
     fn assumptions(&self) -> Vec<&'static str> {
         vec!["registrations stay below 2^17 per kind (memory/time bound of the tier)"]
@@ -328,6 +365,18 @@ impl Property for C08 {
                         ..Default::default()
                     },
                 },
+                Plan {
+                    name: "hist-parse",
+                    kind: PlanKind::Random {
+                        cases: 12_000,
+                        max_len: 400,
+                    },
+                    knobs: Knobs {
+                        max_ops: 30,
+                        variant: 2,
+                        ..Default::default()
+                    },
+                },
             ],
             Tier::Thorough => vec![
                 Plan {
@@ -353,6 +402,18 @@ impl Property for C08 {
                         ..Default::default()
                     },
                 },
+                Plan {
+                    name: "hist-parse",
+                    kind: PlanKind::Random {
+                        cases: 400_000,
+                        max_len: 600,
+                    },
+                    knobs: Knobs {
+                        max_ops: 60,
+                        variant: 2,
+                        ..Default::default()
+                    },
+                },
             ],
         }
     }
@@ -364,6 +425,8 @@ impl Property for C08 {
             pf: HashMap::new(),
             nm: HashMap::new(),
             bulk_counter: 0,
+            ghost_names: vec![],
+            ghost_prefixes: vec![],
         };
         if let Err(e) = builtin(&xot) {
             return Verdict::Fail(e);
@@ -382,12 +445,18 @@ impl Property for C08 {
         let mut repeat = false;
         let mut crossed = false;
         let force_bulk = ctx.knobs.variant == 1;
+        // variant 2: parse-centred histories (generated documents with PIs, rejected documents
+        // that introduce new strings before the error), no 70 000-string bulk steps
+        let parse_centred = ctx.knobs.variant == 2;
+        let mut rejected = 0usize;
         for step in 0..nops {
             if src.exhausted() && step > 0 {
                 break;
             }
             let op = if force_bulk && step == 0 {
                 6
+            } else if parse_centred {
+                src.weighted(&[4, 3, 3, 2, 1, 1, 1, 6, 5])
             } else {
                 src.weighted(&[6, 5, 5, 2, 2, 2, if force_bulk { 2 } else { 1 }, 4])
             };
@@ -459,8 +528,8 @@ impl Property for C08 {
                         let mut o = gen::TreeOpts::xml(10);
                         o.alpha = gen::Alpha::Tiny;
                         o.attr_alpha = gen::Alpha::Tiny;
-                        o.comments = false;
-                        o.pis = false;
+                        o.comments = parse_centred;
+                        o.pis = parse_centred;
                         let t = gen::gen_element_tree(src, &o);
                         let r = render::render(src, &t, render::Style { prolog: false, cdata: false, line_ends: false, ..render::Style::rich() })
                             .map_err(|e| format!("harness: renderer: {}", e))?;
@@ -499,8 +568,41 @@ impl Property for C08 {
                         }
                         m.check_all(&xot, "after parsing a generated document")?;
                     }
+                    8 => {
+                        // a document that introduces new strings and is then rejected
+                        rejected += 1;
+                        let f = rejected;
+                        let text = match src.choice(5) {
+                            0 => format!("<f{f}a><f{f}b/></zz{f}>", f = f),
+                            1 => format!("<q{f}:f{f}a xmlns:q{f}=\"urn:f{f}\"><f{f}b q{f}:f{f}c=\"v\"/>", f = f),
+                            2 => format!("<f{f}a f{f}b=\"1\" f{f}b=\"2\"/>", f = f),
+                            3 => format!("<f{f}a xmlns=\"urn:f{f}\"><?f{f}pi?><f{f}b>&f{f}ent;</f{f}b></f{f}a>", f = f),
+                            _ => format!("<f{f}a><q{f}:f{f}b/></f{f}a>", f = f),
+                        };
+                        log.push(format!("parse({:?}) [to be rejected]", text));
+                        if xot.parse(&text).is_ok() {
+                            return Err(format!("harness: {:?} was accepted", text));
+                        }
+                        for l in ["a", "b", "c", "pi"] {
+                            for n in [String::new(), format!("urn:f{}", f)] {
+                                m.ghost_names.push((format!("f{}{}", f, l), n));
+                            }
+                        }
+                        m.ghost_names.push((format!("zz{}", f), String::new()));
+                        m.ghost_prefixes.push(format!("q{}", f));
+                        m.check_all(&xot, "after a rejected parse")?;
+                        // the next new strings must not collide with anything the rejected parse left behind
+                        let l = format!("h{}", f);
+                        let n = if src.bool() { String::new() } else { format!("urn:h{}", f) };
+                        kinds[0] = true;
+                        log.push(format!("add_name_ns({:?},{:?})", l, n));
+                        reg_name(&mut xot, &mut m, &l, &n)?;
+                        let pf = format!("r{}", f);
+                        reg_pf(&mut xot, &mut m, &pf)?;
+                        m.check_all(&xot, "after registering new strings behind a rejected parse")?;
+                    }
                     _ => {
-                        let k = [10usize, 300, 70_000][src.weighted(&[2, 2, if force_bulk { 6 } else { 1 }])];
+                        let k = [10usize, 300, 70_000][src.weighted(&[2, 2, if force_bulk { 6 } else if parse_centred { 0 } else { 1 }])];
                         let kind = src.choice(3);
                         log.push(format!("bulk(kind={},k={})", kind, k));
                         kinds[kind] = true;
